@@ -312,6 +312,20 @@ impl Disk3D {
             None => local_b,
         }
     }
+
+    /// Verification hook: read-only view of the private fields
+    /// `(centre, normal, radius, inner_radius, phi_zero, phi_max)` as stored by the constructor
+    #[cfg(geometry3d_verif)]
+    pub fn verif_fields(&self) -> (Point3D, Vector3D, Float, Float, Vector3D, Float) {
+        (
+            self.centre,
+            self.normal,
+            self.radius,
+            self.inner_radius,
+            self.phi_zero,
+            self.phi_max,
+        )
+    }
 }
 
 #[cfg(test)]
